@@ -74,5 +74,6 @@ func saveFileExtensionHandlers(handlers map[string]string) error {
 	if err := os.Rename(tmpFile.Name(), octosqlFileExtensionHandlersFile); err != nil {
 		return fmt.Errorf("couldn't move file extension handlers file into place: %w", err)
 	}
+	simhook.CrashPoint("extensions.after_rename")
 	return nil
 }
